@@ -230,9 +230,9 @@ class Run:
                     self.known_hits[trig] += 1
                     if first_trig is None:
                         first_trig = k
-                    if step:
+                    if step and not (trig & 10):
                         continue
-                    break
+                    break   # history mode, or lasting damage (D12 / D13): the rest of the case is tainted
                 self.stats["ops_compared"] += 1
                 if kinds_wanted and kind not in kinds_wanted and step:
                     continue
@@ -353,6 +353,9 @@ def main():
     # ---- verdict ----
     known = load_known()
     os.makedirs(os.path.join(VERIF, "replays"), exist_ok=True)
+    for old in os.listdir(os.path.join(VERIF, "replays")):
+        if old.startswith(pid + "-") and not replay:
+            os.remove(os.path.join(VERIF, "replays", old))
     os.makedirs(os.path.join(VERIF, "evidence"), exist_ok=True)
     exit_code = 0
     lines = []
